@@ -3,7 +3,7 @@
 (* that are valid for their version (WdtValid / WdlValid of the specification decide), over every  *)
 (* version, optional chunk, flag, list cardinality class and grid class -- and the coordinate case.*)
 (* quick = deterministic low-dimensional slices + a seed-rotated sample of the same set;           *)
-(* thorough = the whole product for the small grids + a larger sample for the heavy ones.          *)
+(* thorough = the slices + a seed-rotated sample of 12 000 shapes + 80 heavy-grid shapes.           *)
 EXTENDS WdtWdl, Json, IOUtils
 
 Thorough == IOEnv.VERIF_TIER = "thorough"
@@ -79,9 +79,9 @@ WdlSlices == {gd \in WdlLight : LPlain(gd) /\
                 \/ (gd.grid = "t10")                                                                   \* every version x optional group x holes x mode
                 \/ (gd.ver \in {"Vanilla", "Wotlk", "Legion"} /\ gd.holesCls \in {"none", "some"} /\ gd.names = <<>> /\ gd.nMldd = 0 /\ gd.mode = "same")}
 
-WdtChosen == IF Thorough THEN WdtLight \cup PickSome(WdtHeavy, 60, 5)
+WdtChosen == IF Thorough THEN WdtSlices \cup PickSome(WdtLight, 7000, 1) \cup PickSome(WdtHeavy, 40, 5)
              ELSE WdtSlices \cup PickSome(WdtLight, 150, 1) \cup PickSome(WdtHeavy, 3, 2)
-WdlChosen == IF Thorough THEN WdlLight \cup PickSome(WdlHeavy, 60, 6)
+WdlChosen == IF Thorough THEN WdlSlices \cup PickSome(WdlLight, 5000, 3) \cup PickSome(WdlHeavy, 40, 6)
              ELSE WdlSlices \cup PickSome(WdlLight, 150, 3) \cup PickSome(WdlHeavy, 3, 4)
 
 WdtCase(gd) == [kind |-> "wdt", ver |-> gd.ver, flags |-> SetToSeq(gd.flags), hasMwmo |-> gd.hasMwmo, names |-> gd.names,
